@@ -2,15 +2,5 @@ HOOK_COMMITS = ["9d86301"]
 NOTES = ("Machine-checked proof in Coq 8.16 over a hand-written model, tied to /repo by a correspondence check on every run. "
          "See DESIGN.md. known_findings.json lists recorded defects; fixed entries suppress nothing.")
 NOT_YET = {}
-CLAIMS = {
- "C17": {
-  "text": "Round trips, bijectivity and the documented register/coil layout are Coq theorems for ALL 16/32/64-bit values, both byte orders, both word orders and all bool vectors (no sampling). The model functions are compared with the real codecs on every run: exhaustively for 16 bit, per-byte-position + structured + random for 32/64 bit and bools.",
-  "note": "Trusted: Coq kernel (vm_compute), extraction (ExtrOcamlBasic only), modeld driver, Go harness, VerifEnc* pass-through hooks; floats enter as bit patterns (math.Float*bits trusted, exercised).",
-  "technique": "Coq proof (lia over div/mod digit lemmas, list induction) + exhaustive/structured differential correspondence",
- },
- "C06": {
-  "text": "Coq theorems: table-driven checksum = bit-serial CRC-16/MODBUS for every byte string; chunk independence; GF(2) linearity; acceptance iff trailer = CRC; every single-bit error, burst <= 16 bits (any length) and double-bit error (frames <= 256 bytes) has non-zero syndrome, hence a corrupted valid frame is never accepted. The complete 2^24-entry step function of the real code is compared with model and reference on every run.",
-  "note": "Finite facts are vm_compute sweeps over proved-complete enumerators (2^8, 2^16, 2^19, 64x255). Client-level clauses (never success / recovery) rest on the RTU client model (see level text when extended). Trusted: kernel VM, extraction, harness, VerifCRC* hooks.",
-  "technique": "Coq proof (finite sweeps lifted by forallb_forall, linearity, induction) + exhaustive differential correspondence of the CRC step function",
- },
-}
+import props
+CLAIMS = props.CLAIMS
